@@ -94,7 +94,7 @@ def run(ck):
         return ck.finish(rule="build failed")
     rng = ck.rng
     import vlib
-    n = 6000 if ck.thorough else 600
+    n = 6000 if ck.thorough else 300
     ck.stream("classify-rtp", [ccase(rng) for _ in range(n)], "C02_classify", "classify", "C02_classify_ok",
               nontrivial=lambda c: len(c[2]) >= 3, sig=lambda c, e, o: "classify-rtp")
     ck.stream("classify-flv", [fcase(rng) for _ in range(n)], "C02_classify_flv", "classify_flv", "C02_classify_flv_ok",
@@ -131,7 +131,7 @@ def run(ck):
                              "set: the GOP cache does not start there")
     ck.extra["packetisations_wellformed"] = wf
     cases = []
-    for _ in range(40 if ck.thorough else 6):
+    for _ in range(40 if ck.thorough else 3):
         pkts = frames(rng, rng.randint(3, 22))
         for gop in (True, False):
             for k in range(len(pkts) + 1):
